@@ -607,7 +607,7 @@ vbi_sliced_filter_feed		(vbi_sliced_filter *	sf,
 		vbi_sliced *s;
 		unsigned int n;
 
-		n = MIN (*n_lines, 50U);
+		n = MAX (*n_lines, 50U);
 		s = vbi_realloc (sf->output_buffer,
 				  n * sizeof (*sf->output_buffer));
 		if (unlikely (NULL == s)) {
